@@ -368,16 +368,16 @@ func check(p *Prop, o options) int {
 		os.MkdirAll(replayDir, 0o755)
 		path := filepath.Join(replayDir, fmt.Sprintf("%s-%d-%d.json", p.ID, o.seed, violations))
 		rep := map[string]any{
-			"property":  p.ID,
-			"kind":      fc.kind,
-			"what":      fc.what(),
-			"case":      caseJSON(fc.c),
-			"ops":       fc.res.Ops,
-			"impl_obs":  fc.res.Obs,
-			"model_obs": fc.modelObs,
-			"oracle":    fc.res.Oracle,
-			"seed":      o.seed,
-			"tier":      o.tier,
+			"property":   p.ID,
+			"kind":       fc.kind,
+			"what":       fc.what(),
+			"case":       caseJSON(fc.c),
+			"ops":        fc.res.Ops,
+			"impl_obs":   fc.res.Obs,
+			"model_obs":  fc.modelObs,
+			"oracle":     fc.res.Oracle,
+			"seed":       o.seed,
+			"tier":       o.tier,
 			"replay_cmd": fmt.Sprintf("bin/check %s --replay %s", p.ID, path),
 		}
 		if noInput {
